@@ -3,6 +3,7 @@ import random
 import re
 
 from . import common as C
+from . import continue_gen
 from . import lowering_gen
 
 META = {
@@ -28,9 +29,14 @@ META = {
             "(quick) or exhaustive (thorough); plus all nine rules together in random order; non-trivial = the input tree "
             "contains the construct (census > 0); distinct by source text",
     "assumptions": ["visitor compositionality beyond depth 2",
-                    "remove_continue is not modelled in Coq (post-order rule with a loop stack): its census is observed on "
-                    "the real rule's output only; the theorems cover the other eight rules, for programs that declare no "
-                    "local named math/string/tostring/__DARKLUA_VAR* (shadow handling of the rules is outside the model)"],
+                    "the theorems about the eight rules of Model/Lowering.v cover programs that declare no local named "
+                    "math/string/tostring/__DARKLUA_VAR* (shadow handling of those rules is outside the model)",
+                    "remove_continue (Model/RemoveContinue.v, modelled in full: traversal order, loop stack, numbering, "
+                    "names): `continue` is removed from every program whose `continue`s are all inside a loop of the same "
+                    "function (continue_in_loops; exact: C07_removes_continue_iff); the code leaves a `continue` outside "
+                    "any loop in place (C07_removes_continue_refuted; such a program is not valid Luau). 'Any order of all "
+                    "nine rules' is proved with remove_continue at any position provided the tree reaching it is still in "
+                    "that domain (C07_all_lowered9_partial); that the other eight rules preserve the domain is not proved"],
 }
 
 # ---------------------------------------------------------------------------------------------
@@ -182,7 +188,7 @@ Definition stat_case (c : nat * (block * block)) : N :=
 
 def run(ctx):
     C.build_harness("dl-rules")
-    proofs_ok = C.proof_gate(ctx, ["Lua/Census.vo"])
+    proofs_ok = C.proof_gate(ctx, ["Lua/Census.vo", "Lua/Fingerprint.vo", "Model/RemoveContinue.vo"])
     rnd = random.Random(ctx.seed)
     depth2 = True
     limit = 120 if ctx.tier == "quick" else None
@@ -263,6 +269,8 @@ def run(ctx):
                sum(1 for j in jobs if j[3] == -1), [], still_present=len(text_bad))
     # the tie of the theorems' models (Model/Lowering.v, Model/Visit.v) to the Rust rules
     lowering_gen.run_stream(ctx, ctx.prop)
+    # ... and of Model/RemoveContinue.v to remove_continue (tree equality + census of the real output)
+    continue_gen.run_stream(ctx, ctx.prop)
     for k in sorted(bad)[:5]:
         job, stage = index[k]
         ctx.violation("construct still present after the rule that targets it",
